@@ -49,7 +49,7 @@ def _files(ctx):
     if ctx.thorough:
         return allf
     rnd = random.Random(ctx.seed * 7 + 1)
-    special = rnd.choice(["PARAM.AA", "PARAM.GR", "PARAM.ZR", "PARAM_chrnew.ZR"])
+    special = rnd.choice(["PARAM.AA", "PARAM.GR"])          # a perennial crop is always in (re-sown stand rule)
     others = rnd.sample([f for f in allf if f != special], 2)
     return [special] + others
 
@@ -83,6 +83,8 @@ def _plan(ctx):
         # stage / organ beyond the file's counts: invalid as a whole
         if ne < 9:
             plan.append((fn, [("TSUM", ne + 1, 0, "300")], False))
+            plan.append((fn, [("TSUM", ne + 1, 0, "100"), ("MAXAMAX", 0, 0, "30")], False))
+            plan.append((fn, [("KC", ne + 1, 0, "0.9"), ("TSUM", 1, 0, "90"), ("WUMAXPF", 0, 0, "4.5")], False))
         if nk < 5:
             plan.append((fn, [("PRO", 1, nk + 1, "0.5"), ("MAXAMAX", 0, 0, "44")], False))
     _cache["plan"] = plan
@@ -170,10 +172,33 @@ def correspond(ctx):
     return c
 
 
-def _rotation_project(env, rnd, name, abbr, variety):
-    P = F.base_project(rnd, crops=((abbr, variety), (abbr, variety)), years=(1980, 1982))
-    F.write_project(env, name, P)
-    return P
+def _dims(par):
+    return {fn: F.classic_dims(F.read_lines(os.path.join(par, fn))) + (ab, var) for fn, ab, var in F.classic_files(par)}
+
+
+def _project_variants(env, rnd, par, fn, tag):
+    """[(project name, P, kind, partner stage count)]: the target crop after itself on rotation positions 2, 3, 4
+    (a perennial stand continues from position 3 on) and the target crop sown AFTER a crop with more / fewer
+    development stages (the validation must use the target crop's own counts)"""
+    dims = _dims(par)
+    nk, ne, abbr, var = dims[fn]
+    out = []
+    P = F.base_project(rnd, crops=((abbr, var), (abbr, var)), years=(1980, 1983))
+    F.write_project(env, tag + "s", P)
+    out.append((tag + "s", P, "self", ne))
+    for kind, pick in (("after-more-stages", lambda e: e > ne), ("after-fewer-stages", lambda e: e < ne)):
+        cands = sorted(f for f, d in dims.items() if pick(d[1]) and d[2] != abbr)
+        if not cands:
+            continue
+        pf = rnd.choice(cands)
+        pab, pvar = dims[pf][2], dims[pf][3]
+        Q = F.base_project(rnd, crops=((pab, pvar), (pab, pvar)), years=(1980, 1983))
+        # pre-crop + first sown crop = the partner, then the target crop twice
+        Q.rot = [Q.rot[0], Q.rot[1]] + [(abbr,) + r[1:6] + (var,) for r in Q.rot[2:]]
+        nm = tag + ("m" if kind == "after-more-stages" else "f")
+        F.write_project(env, nm, Q)
+        out.append((nm, Q, kind, dims[pf][1]))
+    return out
 
 
 def oracle(ctx, search):
@@ -200,33 +225,42 @@ def oracle(ctx, search):
                [p for p in plan if not p[2] or len(p[1]) > 1]
     projects, lines, pairs = {}, [], []
     for k, (fn, entries, valid) in enumerate(plan):
-        abbr, var = [(a, v) for f, a, v in F.classic_files(par) if f == fn][0]
         if fn not in projects:
-            name = "ov%d" % len(projects)
-            projects[fn] = (name, _rotation_project(env, rnd, name, abbr, var), F.read_lines(os.path.join(par, fn)),
-                            yaml.safe_load(open(os.path.join(par, fn + ".yml"), encoding="utf-8")))
-            base_i = len(lines); lines.append(F.line_for(name, projects[fn][1]))
-            basey_i = len(lines); lines.append(F.line_for(name, projects[fn][1], extra="CropParameterFormat=yml"))
-            projects[fn] += (base_i, basey_i)
-        name, P, lines0, doc0, base_i, basey_i = projects[fn]
-        key, text = _label(entries), ""
-        a = len(lines); lines.append(F.line_for(name, P, extra="CropFile=%s %s" % (fn, key)))
-        ya = len(lines); lines.append(F.line_for(name, P, extra="CropParameterFormat=yml CropFile=%s.yml %s" % (fn, key)))
+            vs = []
+            for (name, P, kind, pne) in _project_variants(env, rnd, par, fn, "ov%d" % len(projects)):
+                bi = len(lines); lines.append(F.line_for(name, P))
+                byi = len(lines); lines.append(F.line_for(name, P, extra="CropParameterFormat=yml"))
+                vs.append((name, P, kind, pne, bi, byi))
+            projects[fn] = (vs, F.read_lines(os.path.join(par, fn)), yaml.safe_load(open(os.path.join(par, fn + ".yml"), encoding="utf-8")),
+                            F.classic_dims(F.read_lines(os.path.join(par, fn)))[1])
+        vs, lines0, doc0, ne = projects[fn]
+        key = _label(entries)
+        pf = None
         if valid:
             ed, doc = _edits(lines0, doc0, entries)
             pf = F.param_folder(env, "pe%d" % k, {fn: b"\n".join(ed) + b"\n",
                                                   fn + ".yml": yaml.safe_dump(doc, sort_keys=False, allow_unicode=True).encode()})
-            b_ = len(lines); lines.append(F.line_for(name, P, extra="parameter=%s" % pf))
-            yb = len(lines); lines.append(F.line_for(name, P, extra="CropParameterFormat=yml parameter=%s" % pf))
-        else:
-            b_, yb = base_i, basey_i
-        pairs.append((fn, key, text, valid, a, b_, ya, yb, base_i))
+        top = max([e[1] for e in entries] + [0])
+        for (name, P, kind, pne, bi, byi) in vs:
+            if kind != "self" and not search:
+                # next to another crop: everything that is invalid or a set, the stages only one of the two crops has, a sample of the rest
+                if valid and len(entries) == 1 and not (top > min(ne, pne)) and k % 4:
+                    continue
+            a = len(lines); lines.append(F.line_for(name, P, extra="CropFile=%s %s" % (fn, key)))
+            ya = len(lines); lines.append(F.line_for(name, P, extra="CropParameterFormat=yml CropFile=%s.yml %s" % (fn, key)))
+            if valid:
+                b_ = len(lines); lines.append(F.line_for(name, P, extra="parameter=%s" % pf))
+                yb = len(lines); lines.append(F.line_for(name, P, extra="CropParameterFormat=yml parameter=%s" % pf))
+            else:
+                b_, yb = bi, byi
+            pairs.append((fn + ":" + kind, key, "", valid, a, b_, ya, yb, bi))
     runs = F.run_lines(env, "C18", lines, timeout=1800)
     effective = both_failed = 0
     for fn, pr in projects.items():
-        for bi in (pr[4], pr[5]):
-            if runs[bi].err:
-                fails.append(Fail(key="baseline-run-failed:%s" % fn, what="the run without override fails: %s" % runs[bi].err, line=runs[bi].line))
+        for (name, P, kind, pne, bi, byi) in pr[0]:
+            for x in (bi, byi):
+                if runs[x].err:
+                    fails.append(Fail(key="baseline-run-failed:%s:%s" % (fn, kind), what="the run without override fails: %s" % runs[x].err, line=runs[x].line))
     for fn, key, text, valid, a, b_, ya, yb, base_i in pairs:
         for x, y, w in ((a, b_, "classic"), (ya, yb, "yaml")):
             rx, ry = runs[x], runs[y]
@@ -248,4 +282,5 @@ def oracle(ctx, search):
     ctx.extra["valid_overrides_that_change_the_results"] = effective
     ctx.extra["pairs_where_both_runs_fail_alike"] = both_failed
     ctx.extra["run_wall_s"] = round(env.run_wall, 1)
+    ctx.extra["rotations"] = {fn: [v[2] for v in pr[0]] for fn, pr in projects.items()}
     return fails
